@@ -323,13 +323,13 @@ Example C04_text_attr_nonvacuous :
   let x := mkX (mkMConfig (S "html") [] [] WNone None None false None [] false false)
                (mkOconfig (mkOfmt [] [] []) [] [] (S "double") true false [] [] 0 false [] (S "html") [] false [] [] []
                           false None None) in
-  let e := mkSElem (S "p") [PClass 0 (S "c"); PSet [mkSAttr false (S "t") false (SUnq (S "1"))]]
+  let e := mkSElem (S "p") [PClass 0 (S "c"); PSet [] (spaced [mkSAttr false (S "t") false (SUnq (S "1"))])]
                    (Some (S "a>b*3 \{x\} (y)")) true in
   selem_ok e /\ value_inline (xc_o x) (elem_text_value e) /\
   elem_text e = S "p.c[t=1]{a>b*3 \{x\} (y)}/" /\
   expand_markup_str x (elem_text e) = Ok (S "<p class=""c"" t=""1"">a>b*3 {x} (y)</p>").
 Proof.
-  cbv zeta. split; [split; [split; [discriminate|repeat constructor]|split; [repeat constructor; try discriminate|reflexivity]]|].
+  cbv zeta. split; [cbn; grammar_ok|].
   split; [vm_compute; repeat constructor|]. split; vm_compute; reflexivity.
 Qed.
 
